@@ -18,8 +18,8 @@ from vlib.runner import Check, ShardResult, Failure
 from vlib import archlab
 from checks import c15
 
-PARTS_Q = {"x86_32": 3, "x86_64": 4, "x86_16": 2, "arml": 1, "armb": 1, "armtl": 2, "armtb": 1, "aarch64l": 2,
-           "aarch64b": 1, "mips32l": 1, "mips32b": 1, "ppc32b": 1}
+PARTS_Q = {"x86_32": 2, "x86_64": 2, "x86_16": 2, "arml": 2, "armb": 1, "armtl": 4, "armtb": 1, "aarch64l": 4,
+           "aarch64b": 1, "mips32l": 1, "mips32b": 2, "ppc32b": 3}
 PARTS_T = {"x86_32": 12, "x86_64": 14, "x86_16": 12, "arml": 8, "armb": 8, "armtl": 6, "armtb": 6, "aarch64l": 10,
            "aarch64b": 10, "mips32l": 6, "mips32b": 6, "ppc32b": 3}
 BATCH = 20000
@@ -183,7 +183,7 @@ class C17(c15.RoundTripCheck):
     pid = "C17"
     parts_q = PARTS_Q
     parts_t = PARTS_T
-    stride_q = {}
+    stride_q = {"armb": 4, "armtb": 4, "aarch64b": 4, "mips32l": 4}
     nrand_q = 400
     nrand_t = 200000
     arch_names = [n for n in archlab.ARCH_NAMES if archlab.ARCHS[n].llvm]
